@@ -71,4 +71,23 @@ Definition mjx_plane_sphere (n ppos spos : vec3 T) (r : T) : T * vec3 T :=
   let dist := dot3 (sub3 spos ppos) n - r in
   (dist, sub3 spos (scl3 n (r + xhalf * dist))).
 
+(* ---- stiffness K and damping B of the reference acceleration  aref = -B vel - K imp pos  of a (non-friction) constraint row.
+     C: getsolparam (REFSAFE clamp of a standard-form timeconst) + mj_makeImpedance (engine_core_constraint.c); dmax = solimp[1]
+        clamped to [mjMINIMP, mjMAXIMP]; standard form when solref[0] > 0 resp. solref[1] > 0, direct form otherwise *)
+Definition xMINIMP : T := ndec 1 (-4).
+Definition xMAXIMP : T := ndec 9999 (-4).
+Definition c_kb (refsafe : bool) (h s0 s1 dmax : T) : T * T :=
+  let dm := nmin xMAXIMP (nmax xMINIMP dmax) in
+  let tc := if refsafe && (nzero <? s0) then nmax s0 (ntwo * h) else s0 in
+  (if nzero <? tc then none / nmax xMINVAL (dm * dm * tc * tc * s1 * s1) else (- tc) / nmax xMINVAL (dm * dm),
+   if nzero <? s1 then ntwo / nmax xMINVAL (dm * tc) else (- s1) / nmax xMINVAL dm).
+
+(* MJX constraint._kbi: timeconst = maximum(timeconst, 2 timestep) whatever its sign; k, b by the standard formulas, replaced by the
+   direct ones where solref[0] <= 0 resp. solref[1] <= 0; no mjMINVAL guards *)
+Definition mjx_kb (refsafe : bool) (h s0 s1 dmax : T) : T * T :=
+  let tc := if refsafe then nmax s0 (ntwo * h) else s0 in
+  let dm := nmin (nmax dmax xMINIMP) xMAXIMP in
+  (if s0 <=? nzero then (- s0) / (dm * dm) else none / (dm * dm * tc * tc * s1 * s1),
+   if s1 <=? nzero then (- s1) / dm else ntwo / (dm * tc)).
+
 End MK.
